@@ -366,7 +366,7 @@ def main(chk, tier, seed):
     chk.assumptions = ["the run is observed on Orchestrator.run() as the solve command does (status right after run(), end_metrics())",
                        "entries equal to 10000 are the runtime's infinity (run.INFINITY) and only generated for min problems",
                        "a firing of the harness watchdog (45 s) is inconclusive, unless every agent thread is then idle with an empty queue on two samples 1.5 s apart (a quiescent system cannot make run() return any more: reported as a violation); the orchestrator's own 20 s timer is the property's bound"]
-    n = 64 if tier == "quick" else 1600
+    n = 96 if tier == "quick" else 2400
     common.run_chunked(chk, "c22", n, nchunks=16 if tier == "quick" else 64, job_extra={"lines": tier == "thorough"}, timeout=600 if tier == "quick" else 3000)
     out = chk.extra.get("outcomes", {})
     chk.inconclusive_if(out.get("solved", 0) < n // 2 and not chk.violations, "only %d of %d runs reached a result" % (out.get("solved", 0), n))
